@@ -14,8 +14,8 @@
 EXTENDS Handling, Json, IOUtils, TLCExt
 
 Traces == JsonDeserialize(IOEnv.TRACE_FILE)
-VARIABLES tid, l, bad
-tvars == <<vars, tid, l, bad>>
+VARIABLES tid, l, bad, exc
+tvars == <<vars, tid, l, bad, exc>>
 T == Traces[tid].events
 E == T[l]
 
@@ -24,7 +24,7 @@ ConfOf(c) == [hc |-> [h \in H |-> [reasons |-> Range(c.hc[h].reasons), optional 
                                     backoff |-> c.hc[h].backoff]],
               order |-> c.order, lifecycle |-> c.lifecycle, ctimeout |-> c.ctimeout]
 TInit ==
-  /\ tid \in 1..Len(Traces) /\ l = 1 /\ bad = "none"
+  /\ tid \in 1..Len(Traces) /\ l = 1 /\ bad = "none" /\ exc = "none"
   /\ conf = ConfOf(Traces[tid].conf)
   /\ LET i == Traces[tid].init
          o == [exists |-> TRUE, rv |-> 1, ess |-> i.ess, lh |-> 0, prog |-> [h \in H |-> NoRec], fins |-> <<>>,
@@ -86,17 +86,22 @@ FirstBad == IF ~InvokeGoverned THEN "InvokeGoverned" ELSE IF ~InvokeCauseOk THEN
 
 TStep == TEdit \/ TDelete \/ TFin \/ TDeliver \/ TBegin \/ TInv \/ TMerge \/ TJson \/ TEnd \/ TKill \/ TStop \/ TDown
          \/ TList \/ TQuiet \/ Silent \/ Advance
-TNext == TStep /\ conf' = conf /\ bad' = (IF bad # "none" THEN bad ELSE FirstBad')
+\* which known family excuses a final state that is not converged (reported as KNOWN-FINDING by the runner)
+Excuse == IF Converged \/ ~up \/ pc \in {"sleep", "cwait"} THEN "none"
+          ELSE IF Family_F20 THEN "F20" ELSE IF Family_F22 THEN "F22" ELSE IF Family_F21 THEN "F21" ELSE "none"
+TNext == /\ TStep /\ conf' = conf /\ bad' = (IF bad # "none" THEN bad ELSE FirstBad')
+         /\ exc' = (IF l <= Len(T) /\ E.ev = "quiet" /\ l' = l + 1 THEN Excuse ELSE exc)
 TSpec == TInit /\ [][TNext]_tvars
 
 Max2(a, b) == IF a >= b THEN a ELSE b
 Book ==
   /\ TLCSet(3, [TLCGet(3) EXCEPT ![tid] = Max2(@, l)])
+  /\ (IF exc # "none" THEN TLCSet(4, [TLCGet(4) EXCEPT ![tid] = exc]) ELSE TRUE)
   /\ IF bad = "none" THEN TLCSet(1, [TLCGet(1) EXCEPT ![tid] = Max2(@, l)])
      ELSE IF l >= TLCGet(3)[tid] THEN TLCSet(2, [TLCGet(2) EXCEPT ![tid] = bad]) ELSE TRUE
 ASSUME TLCSet(1, [i \in 1..Len(Traces) |-> 0]) /\ TLCSet(3, [i \in 1..Len(Traces) |-> 0])
-       /\ TLCSet(2, [i \in 1..Len(Traces) |-> "none"])
+       /\ TLCSet(2, [i \in 1..Len(Traces) |-> "none"]) /\ TLCSet(4, [i \in 1..Len(Traces) |-> "none"])
 Verdicts ==
   \A i \in 1..Len(Traces) :
-     PrintT(<<"VERDICT", i, Traces[i].id, TLCGet(1)[i] - 1, TLCGet(3)[i] - 1, Len(Traces[i].events), TLCGet(2)[i]>>)
+     PrintT(<<"VERDICT", i, Traces[i].id, TLCGet(1)[i] - 1, TLCGet(3)[i] - 1, Len(Traces[i].events), TLCGet(2)[i], TLCGet(4)[i]>>)
 =============================================================================
